@@ -60,11 +60,19 @@ func hashFile(p string) string {
 
 func runInv(work, dir string, inv dirInv) error {
 	spec := []string{specWithComponents, specNoComponents, specNoOperations}[inv.Spec]
-	r := runGoagDir(work, dir, fmt.Sprintf("dirspec%d", inv.Spec), []byte(spec), inv.Client, !inv.API, inv.DNE)
+	r := runGoagDir(work, dir, fmt.Sprintf("dirspec%d", inv.Spec), []byte(spec), inv.Client, !inv.API, inv.DNE, "p")
 	if r.Outcome != "ok" {
 		return fmt.Errorf("goag %s: %s", r.Outcome, firstLine(r.Detail))
 	}
 	return nil
+}
+
+// runFailing: an invocation that fails (a package name that is not an identifier: the first file
+// it renders is not valid Go). Whatever it leaves behind, the next successful run must clean up.
+func runFailing(work, dir string, inv dirInv) bool {
+	spec := []string{specWithComponents, specNoComponents, specNoOperations}[inv.Spec]
+	r := runGoagDir(work, dir, fmt.Sprintf("dirspec%d", inv.Spec), []byte(spec), inv.Client, !inv.API, inv.DNE, "pet-api")
+	return r.Outcome == "error"
 }
 
 func facetDir(args []string) error {
@@ -147,6 +155,8 @@ func facetDir(args []string) error {
 		init string // 5 chars + foreign flag
 		hist []dirInv
 		kind string
+		// failBefore[i]: a failing invocation (same spec / flags as failWith[i]) runs before hist[i]
+		failBefore map[int]dirInv
 	}
 	var cases []dcase
 	// 1. all single steps: 2^5 presence patterns x foreign x 8 invocations
@@ -166,7 +176,7 @@ func facetDir(args []string) error {
 				init += "-"
 			}
 			for _, inv := range invs {
-				cases = append(cases, dcase{fmt.Sprintf("d1-%02d-%d-%d", pat, fo, inv.tag()), init, []dirInv{inv}, "single-step"})
+				cases = append(cases, dcase{fmt.Sprintf("d1-%02d-%d-%d", pat, fo, inv.tag()), init, []dirInv{inv}, "single-step", nil})
 			}
 		}
 	}
@@ -174,7 +184,7 @@ func facetDir(args []string) error {
 	var rec func(prefix []dirInv, n int)
 	rec = func(prefix []dirInv, n int) {
 		if len(prefix) > 0 {
-			cases = append(cases, dcase{fmt.Sprintf("dh-%d", len(cases)), "------", append([]dirInv{}, prefix...), fmt.Sprintf("history-%d", len(prefix))})
+			cases = append(cases, dcase{fmt.Sprintf("dh-%d", len(cases)), "------", append([]dirInv{}, prefix...), fmt.Sprintf("history-%d", len(prefix)), nil})
 		}
 		if n == 0 {
 			return
@@ -184,12 +194,21 @@ func facetDir(args []string) error {
 		}
 	}
 	rec(nil, 2)
+	// a failed invocation followed by every invocation
+	for fi, f := range invs {
+		if fi%3 != 0 {
+			continue
+		}
+		for _, inv := range invs {
+			cases = append(cases, dcase{id: fmt.Sprintf("df-%d-%d", f.tag(), inv.tag()), init: "------", hist: []dirInv{inv}, kind: "after-failed-run", failBefore: map[int]dirInv{0: f}})
+		}
+	}
 	n3 := 1200
 	if *tier == "thorough" {
 		n3 = 12000
 	}
 	for i := 0; i < n3; i++ {
-		cases = append(cases, dcase{fmt.Sprintf("d3-%d", i), "------", []dirInv{Pick(rng, invs), Pick(rng, invs), Pick(rng, invs)}, "history-3"})
+		cases = append(cases, dcase{fmt.Sprintf("d3-%d", i), "------", []dirInv{Pick(rng, invs), Pick(rng, invs), Pick(rng, invs)}, "history-3", nil})
 	}
 	// 3. random longer histories from random initial states
 	nr := 60
@@ -207,7 +226,13 @@ func facetDir(args []string) error {
 		for j := 0; j < n; j++ {
 			h = append(h, Pick(rng, invs))
 		}
-		cases = append(cases, dcase{fmt.Sprintf("dr-%d", i), init, h, "history-long"})
+		fb := map[int]dirInv{}
+		for j := range h {
+			if rng.Chance(1, 5) {
+				fb[j] = Pick(rng, invs)
+			}
+		}
+		cases = append(cases, dcase{id: fmt.Sprintf("dr-%d", i), init: init, hist: h, kind: "history-long", failBefore: fb})
 	}
 
 	cf, _ := os.Create(filepath.Join(*out, "cases.tsv"))
@@ -215,6 +240,7 @@ func facetDir(args []string) error {
 	cw, ow := bufio.NewWriter(cf), bufio.NewWriter(of)
 	kinds := map[string]int{}
 	runs := 0
+	failedRuns := 0
 	for i, c := range cases {
 		if i%*nshards != *shard {
 			continue
@@ -233,7 +259,13 @@ func facetDir(args []string) error {
 		}
 		var hs []string
 		errStr := ""
-		for _, inv := range c.hist {
+		for hi, inv := range c.hist {
+			if f, ok := c.failBefore[hi]; ok {
+				// (an invocation that writes no file at all has nothing to fail on)
+				if runFailing(*work, d, f) {
+					failedRuns++
+				}
+			}
 			if err := runInv(*work, d, inv); err != nil {
 				errStr = err.Error()
 				break
